@@ -711,7 +711,7 @@ class LeastSquare:
 
         numbtype = number_type(allknots)
         numbtype = Fraction if (numbtype is int) else numbtype
-        nptsinteg = olddegree + newdegree + 3  # Number integration points
+        nptsinteg = 2 * max(olddegree, newdegree) + 1  # Number integration points
         if numbtype is Fraction:
             nodes0to1 = NodeSample.open_linspace(nptsinteg)
             integrator = IntegratorArray.open_newton_cotes(nptsinteg)
